@@ -917,6 +917,8 @@ func (w *World) issueAPI(o *OpRec) {
 		return
 	}
 	if op.K == "api_start" {
+		o.Inv = w.S.StepCnt
+		w.rec(&Rec{Kind: "api_inv", C: op.C, Conn: -1, Op: o.Idx, Note: op.K})
 		w.StartNode(node)
 		w.complete(o, w.S.StepCnt)
 		return
